@@ -39,11 +39,7 @@ def to_term(case, obs):
         h.append((kind_term(op, ob),
                   C("mkI", opt(ob["val"]), ob["oracle"], list(ob["view"]), Nat(ob["getter"]),
                     [(opt(e[0]), e[1]) for e in ob["events"]], Nat(d), opt(ob["cache"]))))
-    # c_hooked = false: the cases of the listed findings F23 (property added with add_trait: no observers at all) and F24
-    # (optional dependency added with add_trait: the add_trait step delivers nothing); the interface check (code 8) is
-    # skipped for them, the model follows the code's deliveries and the LAW fails on them (known keys)
-    hooked = not case.get("added") and case["prop"] != "optdep"
-    return C("mkCase", bool(case["cached"]), hooked, (list(obs["init_view"]), obs["init_oracle"]), h)
+    return C("mkCase", bool(case["cached"]), not case.get("added"), (list(obs["init_view"]), obs["init_oracle"]), h)
 
 
 def shape(op):
@@ -299,12 +295,6 @@ def corpus():
             cs.append(dict(prop="scalar", cached=cached, added=how, n=2, init=dup,
                            ops=[["Read"], ["Listen", "observe"], ["Set", 0, "value", 4], ["Read"], ["Set", 0, "value", 5],
                                 ["Read"], ["Read"]]))
-    # CANDIDATE FINDING F24 (always included): the property observes a trait the class does not define, as optional;
-    # the trait is added to the instance with add_trait: the value the getter computes changes, nothing is delivered
-    for cached in (True, False):
-        cs.append(dict(prop="optdep", cached=cached, n=2, init=dup,
-                       ops=[["Read"], ["Listen", "observe"], ["AddDep", 0, 4], ["Read"], ["Set", 0, "extra", 6], ["Read"],
-                            ["Read"], ["Set", 0, "extra", 1], ["Read"]]))
     # a getter that legitimately returns None, read repeatedly without a change in between
     cs.append(dict(prop="maybe", cached=True, n=2, init=dup,
                    ops=[["Set", 0, "value", 2], ["Read"], ["Read"], ["Read"], ["Listen", "observe"], ["Set", 0, "value", 3], ["Read"],
